@@ -353,6 +353,7 @@ func RunC10(t *testing.T, c *C10Case) *RunResult {
 			panic(err)
 		}
 		var first *c10Outcome
+		var firstBody []byte
 		newIngestor := func(client *captureClient) (*bulk.Ingestor, http.Handler) {
 			ing := bulk.NewIngestor(bulk.IngestorConfig{
 				MaxInflightBulks: 4, AllowedTimeDrift: time.Duration(c.DriftMs) * time.Millisecond, FutureAllowedTimeDrift: time.Duration(c.FutureMs) * time.Millisecond,
@@ -484,7 +485,10 @@ func RunC10(t *testing.T, c *C10Case) *RunResult {
 			}
 			// identical outcome for every chunking of the same body
 			if first == nil {
-				first = out
+				first, firstBody = out, body
+			} else if !bytes.Equal(body, firstBody) {
+				// with clock gaps between the deliveries the time strings inside the body differ (also in
+				// length, which moves a cut): each delivery was checked against its own reference above
 			} else if first.status != out.status || first.items != out.items || len(first.stored) != len(out.stored) {
 				violate("chunking_dependent", "delivery 0 -> status %d, %d items, %d stored; delivery %d of the same body -> status %d, %d items, %d stored", first.status, first.items, len(first.stored), di, out.status, out.items, len(out.stored))
 				return
